@@ -111,6 +111,8 @@ pub fn random_history(cfg: &RandCfg, rng: &mut StdRng, r: &mut Recorder, clients
     let mut used_ranks: BTreeSet<u64> = BTreeSet::new();
     let mut delivered: BTreeSet<String> = BTreeSet::new();
     let mut junk_events: Vec<String> = vec![];
+    // a client that swapped its own MLS identity (adversarial raw commit) is the attacker's own wreck: it takes no further part
+    let mut tainted: BTreeSet<String> = BTreeSet::new();
     let mut withdrawn: BTreeSet<String> = BTreeSet::new();
     let g = "g1";
 
@@ -121,6 +123,7 @@ pub fn random_history(cfg: &RandCfg, rng: &mut StdRng, r: &mut Recorder, clients
 
     for _ in 0..cfg.steps {
         let mut c = clients[rng.gen_range(0..n)].to_string();
+        if tainted.contains(&c) { continue; }
         let roll = rng.gen_range(0..100);
         // state-aware choice: for commit-producing actions prefer an actor that can succeed
         // (an admin member without a pending commit); 25% of the time keep the blind choice so
@@ -137,6 +140,7 @@ pub fn random_history(cfg: &RandCfg, rng: &mut StdRng, r: &mut Recorder, clients
                     eligible.push(x.to_string());
                 }
             }
+            eligible.retain(|x| !tainted.contains(x));
             if !eligible.is_empty() {
                 c = eligible[rng.gen_range(0..eligible.len())].clone();
             }
@@ -211,7 +215,14 @@ pub fn random_history(cfg: &RandCfg, rng: &mut StdRng, r: &mut Recorder, clients
             while used_ranks.contains(&(ts * 100 + rk)) { rk = rk % 15 + 1; }
             if others.is_empty() || post["mls"] != json!("ok") { None } else {
                 let victim = others[rng.gen_range(0..others.len())].clone();
-                match rng.gen_range(0..7) {
+                match rng.gen_range(0..9) {
+                    7 => {
+                        used_ranks.insert(ts * 100 + rk);
+                        let v = exec_action(&mut w, &json!({"op":"Raw","c":c,"g":g,"kind":"update_identity","arg":[victim],"ts":ts,"rank":rk}));
+                        if v["res"] == json!("Ok") { tainted.insert(c.clone()); }
+                        Some(v)
+                    }
+                    8 => { used_ranks.insert(ts * 100 + rk); Some(exec_action(&mut w, &json!({"op":"Raw","c":c,"g":g,"kind":"prop_update","arg":"","ts":ts,"rank":rk}))) }
                     0 => Some(exec_action(&mut w, &json!({"op":"Forge","c":c,"g":g,"claimed":victim,"idclass":"none","ts":ts,"mts":clock}))),
                     1 => Some(exec_action(&mut w, &json!({"op":"Forge","c":c,"g":g,"claimed":c,"idclass":"random","ts":ts,"mts":clock}))),
                     2 => {
@@ -309,6 +320,7 @@ pub fn random_history(cfg: &RandCfg, rng: &mut StdRng, r: &mut Recorder, clients
         }
         order.shuffle(rng);
         for (c, e) in order {
+            if tainted.contains(&c) { continue; }
             let parent = w.events[&e].parent.clone();
             // observers (clients without an operational group: never added, pending, evicted) are fed everything
             // ... and late joiners are also handed the events created before they joined
@@ -330,7 +342,7 @@ pub fn random_history(cfg: &RandCfg, rng: &mut StdRng, r: &mut Recorder, clients
             }
         }
         if !changed || passes >= 6 {
-            let posts: Vec<Value> = clients.iter().map(|c| json!({"c":c,"g":g,"post":w.project(c, g)})).collect();
+            let posts: Vec<Value> = clients.iter().filter(|c| !tainted.contains(**c)).map(|c| json!({"c":c,"g":g,"post":w.project(c, g)})).collect();
             r.emit(json!({"op":"Quiesce","passes":passes,"stable":!changed,"regime":cfg.regime,"posts":posts}));
             break;
         }
@@ -419,6 +431,68 @@ pub fn welcome_history(cfg: &RandCfg, rng: &mut StdRng, r: &mut Recorder, client
     r.emit(json!({"op":"Snapshot","posts":posts}));
 }
 
+/// Directed-random deep forks and window boundaries (C01 retention depth / look-back; C02 past-epoch and look-back windows):
+/// a bystander follows a losing chain of depth d, messages of older epochs arrive k epochs late, then the winner arrives.
+pub fn fork_history(cfg: &RandCfg, rng: &mut StdRng, r: &mut Recorder, clients: &[&str]) {
+    let mut w = World::new(cfg.mdk.clone());
+    for (i, c) in clients.iter().enumerate() {
+        let be = match cfg.backend.as_str() { "mixed" => if i % 2 == 0 { "mem" } else { "sql" }, x => x };
+        w.add_client(c, be);
+    }
+    r.emit(json!({"op":"Reset"}));
+    let g = "g1";
+    r.emit(w.op_create("c1", g, &["c2".to_string(), "c3".to_string()], &["c1".to_string(), "c2".to_string()]));
+    let mut step = |w: &mut World, r: &mut Recorder, a: Value| -> Value { let v = exec_action(w, &a); r.emit(v.clone()); v };
+    let depth = rng.gen_range(1..=7u64);
+    let mut clock = 30u64;
+    // messages created on the base chain by c2 and c3 (to be delivered late)
+    let m_base = step(&mut w, r, json!({"op":"Send","c":"c2","g":g,"ts":clock,"rank":0,"mts":clock}));
+    let m_base3 = step(&mut w, r, json!({"op":"Send","c":"c3","g":g,"ts":clock,"rank":0,"mts":clock}));
+    // the eventual winner: created by c2 on the base chain with the earliest timestamp, published late
+    let winner = step(&mut w, r, json!({"op":"Commit","c":"c2","g":g,"kind":"rename","arg":"winner","ts":10,"rank":1}));
+    // the losing chain, built and applied at once by c1, followed by the bystander c3
+    let mut losers: Vec<String> = vec![];
+    let late_at = rng.gen_range(0..=depth);
+    for i in 0..depth {
+        clock += 1;
+        let kind = ["rename", "self_update", "redesc"][rng.gen_range(0..3)];
+        let v = step(&mut w, r, json!({"op":"Commit","c":"c1","g":g,"kind":kind,"arg":format!("l{i}"),"ts":clock,"rank":(i % 14) + 2}));
+        if v["res"] != json!("Ok") { break; }
+        let e = v["e"].as_str().unwrap().to_string();
+        step(&mut w, r, json!({"op":"Merge","c":"c1","g":g}));
+        step(&mut w, r, json!({"op":"Deliver","c":"c3","e":e,"ts":clock,"rank":0}));
+        losers.push(e);
+        if i + 1 == late_at {
+            // a message of the base epoch reaches the bystander `late_at` epochs late
+            step(&mut w, r, json!({"op":"Deliver","c":"c3","e":m_base["e"],"ts":clock,"rank":0}));
+        }
+        if rng.gen_bool(0.4) {
+            // traffic on the losing branch
+            let mv = step(&mut w, r, json!({"op":"Send","c":"c1","g":g,"ts":clock,"rank":0,"mts":clock}));
+            if mv["res"] == json!("Ok") { step(&mut w, r, json!({"op":"Deliver","c":"c3","e":mv["e"],"ts":clock,"rank":0})); }
+        }
+    }
+    // now the winner is seen by everybody (its author applies it on echo)
+    let we = winner["e"].as_str().unwrap_or("").to_string();
+    if !we.is_empty() {
+        for c in ["c3", "c1", "c2"] {
+            step(&mut w, r, json!({"op":"Deliver","c":c,"e":we,"ts":clock + 1,"rank":0}));
+        }
+    }
+    // quiescence passes over everything
+    for _ in 0..3 {
+        let evs = w.ev_order.clone();
+        for e in &evs {
+            for c in ["c1", "c2", "c3"] {
+                step(&mut w, r, json!({"op":"Deliver","c":c,"e":e,"ts":clock + 2,"rank":0}));
+            }
+        }
+    }
+    let _ = m_base3;
+    let posts: Vec<Value> = clients.iter().map(|c| json!({"c":c,"g":g,"post":w.project(c, g)})).collect();
+    r.emit(json!({"op":"Quiesce","passes":3,"stable":true,"regime":"free","posts":posts}));
+}
+
 pub fn run_random(cfg: &RandCfg, r: &mut Recorder) {
     let clients = ["c1", "c2", "c3", "c4"];
     let sql: Vec<&str> = match cfg.backend.as_str() {
@@ -429,6 +503,8 @@ pub fn run_random(cfg: &RandCfg, r: &mut Recorder) {
     r.emit(meta(&clients, &["g1"], &sql, &cfg.mdk));
     let mut rng = StdRng::seed_from_u64(cfg.seed);
     for _ in 0..cfg.histories {
-        if cfg.profile == "welcome" { welcome_history(cfg, &mut rng, r, &clients); } else { random_history(cfg, &mut rng, r, &clients); }
+        if cfg.profile == "welcome" { welcome_history(cfg, &mut rng, r, &clients); }
+        else if cfg.profile == "fork" { fork_history(cfg, &mut rng, r, &clients); }
+        else { random_history(cfg, &mut rng, r, &clients); }
     }
 }
